@@ -32,7 +32,7 @@ type CorruptOp struct {
 }
 
 func genC07(t *rapid.T) C07Case {
-	base := genSmallFile(wl.CfgParams{ForceChunked: true, ForceCRC: true, NoCustom: true, NoSkipMagic: true, SmallChunks: true, Compressions: cheapMix}, 12, 40, true)(t)
+	base := genSmallFile(wl.CfgParams{ForceChunked: true, ForceCRC: true, NoCustom: true, NoSkipMagic: true, SmallChunks: true, Compressions: []string{"", "", "", "", "zstd", "lz4", "lz4-nochecksum", "zstd-nochecksum"}}, 12, 40, true)(t)
 	c := C07Case{W: base.W, K: base.K}
 	n := rapid.IntRange(0, 6).Draw(t, "n-multibyte")
 	for i := 0; i < n; i++ {
